@@ -1,13 +1,12 @@
 SPECIFICATION Spec
 CONSTANTS
     N = 3
-    K = 2
-    Variant = "current"
+    K = 1
+    Variant = "regress-a05df8f"
 INVARIANT PivotsAreMinorRatios
 INVARIANT FactorsExact
 INVARIANT SpdAccepted
 INVARIANT ErrorClause
 INVARIANT OkIsFinite
 INVARIANT DefectExtent
-INVARIANT Replay
 CHECK_DEADLOCK FALSE
